@@ -1205,8 +1205,13 @@ def run_fn_(name, args, ctx, depth=0):
             if m:
                 dst, callee, argtxt, nxt = m
                 argv = [eval_operand(fr, a, ctx) for a in split_top(argtxt)]
+                r = NotImplemented
                 if callee in FNS or re.sub(r"::<'_>", '', callee) in FNS:
-                    r = run_fn(callee if callee in FNS else re.sub(r"::<'_>", '', callee), argv, ctx, depth + 1)
+                    for ex in EXTRA_CONTRACTS:          # a case may replace a function of the dumped crates by a contract
+                        r = ex(callee, argv, ctx)
+                        if r is not NotImplemented: break
+                    if r is NotImplemented:
+                        r = run_fn(callee if callee in FNS else re.sub(r"::<'_>", '', callee), argv, ctx, depth + 1)
                 else:
                     r = call(fr, callee, argv, ctx)
                 fr.ref(parse_place(dst)).set(r)
